@@ -477,6 +477,10 @@ class SignatureV4(Signature):
 
     def parse(self, packet):
         super(Signature, self).parse(packet)
+        # the version octet is consumed; this many octets of the packet remain
+        remaining = self.header.length - 1
+        start = len(packet)
+
         self.sigtype = packet[0]
         del packet[0]
 
@@ -491,7 +495,11 @@ class SignatureV4(Signature):
         self.hash2 = packet[:2]
         del packet[:2]
 
-        self.signature.parse(packet)
+        # the signature material ends where the packet ends, whatever follows it in the buffer
+        siglen = max(remaining - (start - len(packet)), 0)
+        sigdata = packet[:siglen]
+        del packet[:siglen]
+        self.signature.parse(sigdata)
 
 
 class SKESessionKey(VersionedPacket):
